@@ -2,7 +2,7 @@
 # eval_seed.sh <PROP-ID> <diff-file> [check ids...]: apply a seeded change to a scratch copy of /repo HEAD
 # and run the given checks (default: the property's own) against it. Prints the VIOLATION lines.
 id=$1; diff=$2; shift 2; checks=${@:-$id}
-d=/tmp/ev/$(basename $(dirname $(dirname $diff)))_$(basename $diff .diff)
+d=/tmp/ev/$(basename $(dirname $diff))_$(basename $(dirname $(dirname $diff)))_$(basename $diff .diff)_$$
 rm -rf $d && mkdir -p $d && (cd /repo && git archive HEAD | tar -x -C $d) || exit 2
 (cd $d && git init -q . 2>/dev/null; git -C $d apply --whitespace=nowarn $diff 2>&1 || (cd $d && patch -p1 --binary < $diff)) || { echo "APPLY FAILED"; exit 2; }
 for c in $checks; do
